@@ -103,8 +103,9 @@ def helper_probes(impl: Impl) -> list:
     def sql(c):
         return c.expression.sql(dialect="duckdb")
 
-    lits = {None: "NULL", True: "TRUE", False: "FALSE", 0: "0", 1: "1", -1: "-1", 2: "2", "a": "'a'", "": "''", "ab": "'ab'"}
-    for v, want in lits.items():
+    lits = [(None, "NULL"), (True, "TRUE"), (False, "FALSE"), (0, "0"), (1, "1"), (-1, "-1"), (2, "2"),
+            ("a", "'a'"), ("", "''"), ("ab", "'ab'")]
+    for v, want in lits:
         for name, mk in (("F.lit", F.lit), ("Column._lit", Column._lit)):
             try:
                 got = sql(mk(v))
